@@ -34,9 +34,11 @@ type echoServer struct {
 	ack     *uacp.Acknowledge
 	started chan struct{}
 	respond func(s *echoServer, ctx context.Context, msg *uasc.MessageBody) // nil = answer at once
+	eager   bool                                                            // the server is a prompt environment, not an explored participant
 }
 
 func (s *echoServer) run(ctx context.Context, l *uacp.Listener) {
+	vrt.SetEager(s.eager)
 	conn, err := l.Accept(ctx)
 	if err != nil {
 		return
@@ -121,6 +123,11 @@ func pairURL(ctx context.Context, srv *echoServer, ccfg *uasc.Config, u string) 
 		panic(err)
 	}
 	return sc, errch
+}
+
+// smallAck negotiates 8 KiB chunks in both directions.
+func smallAck() *uacp.Acknowledge {
+	return &uacp.Acknowledge{ReceiveBufSize: 8192, SendBufSize: 8192, MaxChunkCount: 64, MaxMessageSize: 1 << 20}
 }
 
 func noneCfg(lifetime uint32, timeout time.Duration) *uasc.Config {
